@@ -533,4 +533,52 @@ theorem C19_accepted_is_usable_partial : AcceptedIsUsable where
     ⟨let ⟨b, hb, _⟩ := C18.C18_copy_roundtrip am cls hcls kwargs a h; ⟨b, hb⟩,
      let ⟨b, hb, _⟩ := C18.C18_pickle_roundtrip am cls hcls kwargs a h; ⟨b, hb⟩⟩
 
+/-! ## non-vacuity: the hypotheses are met by concrete non-trivial automata, and the calls the
+fields speak about end as the fields say -/
+
+/-- C01's partial DFA (state 1 has no 1-transition) is valid; a word with the foreign symbol 7
+and a word that runs into the missing transition are read without a crash: `RejectionException`,
+`accepts_input` answers `False`. -/
+example : C01.exDFA.validate = .ok () ∧
+    C01.exDFA.readInput [0, 7, 1] = .error (.lib .rejectionException) ∧
+    C01.exDFA.acceptsInput [1, 1, 0] = .ok false ∧ C01.exDFA.acceptsInput [0, 1] = .ok true := by
+  decide
+
+/-- C01's NFA with an ε-cycle and a state without a row: valid, reads a foreign symbol. -/
+example : C01.exNFA.validate = .ok () ∧ C01.exNFA.acceptsInput [0] = .ok true ∧
+    C01.exNFA.readInput [0, 5] = .error (.lib .rejectionException) := by decide
+
+/-- C06's DFAs (one partial, one complete, common alphabet): hypotheses of `dfa_binop` /
+`dfa_compare_defined`; against a DFA over another alphabet the documented
+`SymbolMismatchError`. -/
+example : C06.exA.validate = .ok () ∧ C06.exB.validate = .ok () ∧ C06.exA.symsEq C06.exB = true ∧
+    C06.exA.issubset C06.exB = .ok false ∧
+    (match C06.exA.binopPlain .union
+        { C06.exB with syms := [0], trans := [(0, [(0, 1)]), (1, [(0, 0)])] } with
+     | .error (.lib .symbolMismatchError) => true
+     | _ => false) = true := by decide
+example : C06.exA.PyShape ∧ C06.exB.PyShape := ⟨C06.exA_shape, C06.exB_shape⟩
+
+/-- The hypotheses of `dfa_successors` (`C14.Dom`: non-empty alphabet, start string over it) are
+met by C13's finite-language DFA; on C14's infinite-language DFA the reverse direction ends
+with the documented `InfiniteLanguageException`. -/
+example : C14.Dom C14.exF id (some [0, 1]) :=
+  ⟨by decide, ⟨by decide, by decide⟩, by decide, by decide, by unfold DFA.KeyInj; decide, by decide⟩
+example : C14.exD.predecessors id (some [1]) {} 10 =
+    ([], .raised (.lib .infiniteLanguageException)) := by decide
+
+/-- C08's NFAs are `Valid`; a quotient of a union evaluates without error. -/
+example : C08.exA.Valid ∧ C08.exB.Valid := ⟨C08.exA_valid, C08.exB_valid⟩
+example : (match NFA.union C08.exA C08.exB with
+           | .ok U => (NFA.leftQuotient U C08.exB).toOption.isSome
+           | .error _ => false) = true := by decide
+
+/-- C02's aⁿbⁿ DPDA (valid) and C03's two-tape MNTM (valid) on accepted and rejected inputs. -/
+example : C02.exD.validate = .ok () ∧
+    PDA.acceptsInput (C02.exD.readStepwise (fun _ => true) 10 [0, 0, 1, 1]) = some (.ok true) ∧
+    PDA.acceptsInput (C02.exD.readStepwise (fun _ => false) 10 [0, 1, 1, 7]) = some (.ok false) := by
+  decide
+example : C03.exM.validate = .ok () ∧ C03.exM.verdict [0, 0] 4 = .ok .accept ∧
+    C03.exM.verdict [9] 4 = .ok .reject := by decide
+
 end AV.Props.C19
